@@ -202,11 +202,6 @@ Print Assumptions C14_mismatch_refuted.
 Theorem C14_replace_fill_end_refuted : refutes w_replace_end = true /\ refutes w_fill_end = true.
 Proof. exact replace_fill_end_refuted. Qed.
 Print Assumptions C14_replace_fill_end_refuted.
-Theorem C14_nil_sequence_refuted :
-  refutes w_subseq_nil = true /\ refutes w_every_nil = true /\ refutes w_subsetp_nil = true /\
-  refutes w_reduce_nil = true /\ refutes w_map_nil = true /\ refutes w_merge_nil = true.
-Proof. exact nil_sequence_refuted. Qed.
-Print Assumptions C14_nil_sequence_refuted.
 Theorem C14_merge_tie_refuted : refutes w_merge_tie = true.
 Proof. exact merge_tie_refuted. Qed.
 Print Assumptions C14_merge_tie_refuted.
